@@ -7,6 +7,7 @@ CONSTANTS
   SegLens = {0, 1, 2, 3, 4, 5, 9}
   MaxTotal = 40
   NoCtx <- SimNone
+  SbThreshold = 1
   TrackStream = FALSE
 INVARIANT DumpAtEnd
 CHECK_DEADLOCK FALSE
